@@ -38,6 +38,7 @@ def cases(tier):
     out.append("from_ode/o2/m1/d2")
     out.append("stack/o1/m1/d2")
     out.append("lift_max/o1/m0/d2")
+    out.append("lift_max/o2/m0/d2")
     for kind in ("ode_surplus", "res_surplus"):
         out.append(f"{kind}/o1/m1/d2")
         out.append(f"{kind}/o2/m0/d2")
@@ -130,12 +131,13 @@ def build(case_id, tier):
             if kind == "ode_lift":
                 vf = mk_ode(co).jet_lift(lift_by=m)
                 out = vf.vector_field(jet_coords=list(U), t=t)
-                assert vf.tcoeff_indices_output == [order + l for l in range(m + 1)], vf.tcoeff_indices_output
-                assert vf.num_tcoeffs_in_args == order + m
-                return list(out)
+                # bookkeeping of the lifted problem (plain Python attributes): returned as data and decided as obligations
+                book = jnp.asarray([float(x) for x in vf.tcoeff_indices_output] + [float(vf.num_tcoeffs_in_args)])
+                return list(out) + [book]
             if kind == "lift_max":
                 vf = mk_ode(co).jet_lift_max(num_tcoeffs=len(U))      # lifts by len(U) - order - 1
-                return list(vf.vector_field(jet_coords=list(U[: vf.num_tcoeffs_in_args]), t=t))
+                book = jnp.asarray([float(x) for x in vf.tcoeff_indices_output] + [float(vf.num_tcoeffs_in_args)])
+                return list(vf.vector_field(jet_coords=list(U[: vf.num_tcoeffs_in_args]), t=t)) + [book]
             if kind == "res_lift":
                 wrap = {0: probdiffeq.residual_position, 1: probdiffeq.residual_velocity, 2: probdiffeq.residual_acceleration}[order]
                 if order == 0:
@@ -179,7 +181,16 @@ def build(case_id, tier):
             r1 = co_s["c"] + co_s["L0"] @ u0 + co_s["e"] * t_s[()]
             r2 = feval(co_s, [u0, u1], t_s[()])
             want = [np.concatenate([r1, r2])]
-        res = {"number of outputs = lift_by + 1": (orc.arr(np.asarray(float(len(out)))), orc.arr(np.asarray(float(len(want)))))}
+        res = {}
+        if kind in ("ode_lift", "lift_max"):
+            out = list(out)
+            book = np.asarray(out.pop(), dtype=float)
+            mm_ = len(want) - 1
+            expect = np.asarray([float(order + l) for l in range(mm_ + 1)] + [float(order + mm_)])
+            ok = book.shape == expect.shape and bool(np.all(book == expect))
+            res["lifted outputs are paired with Taylor coefficients order..order+m; arguments = order+m [concrete]"] = (
+                orc.arr(np.asarray(1.0 if ok else 0.0)), orc.arr(np.asarray(1.0)))
+        res["number of outputs = lift_by + 1"] = (orc.arr(np.asarray(float(len(out)))), orc.arr(np.asarray(float(len(want)))))
         if orc.sym:
             for i, (x, w) in enumerate(zip(out, want)):
                 res[f"d^{i}/dt^{i}"] = (orc.arr(x), w)
